@@ -284,6 +284,25 @@ theorem ignore_can_unuse_another_ignore :
                 sev := .error, onlyOnce := false, span := [4, 5], offset := 0, endLine := some 5, endColumn := none, parent := none },
       .genUnused 1 false ], by decide, by decide, by decide⟩
 
+/-- (found by the search on `functools.partial(fn3, 2)()`, check-functools.test) the same text reported twice
+    on a line with different codes: `remove_duplicates` shows only the first.  Ignoring *that* code suppresses the
+    first, and the twin — which the ignore does not match — is displayed instead: the error does not go away,
+    it changes its code.  All hypotheses of `ignore_exact` hold here; the stored infos obey the delta rule, the
+    *display* does not shrink by the deletion because the deletion is not key-closed
+    (`displayed_deletion_needs_key_closed`). -/
+theorem ignore_can_unhide_duplicate :
+    ∃ evs : List Ev, Quiet St.init evs ∧
+      (fileMessages (run Gen.env St.init evs).dyn 1).map (fun t => (t.line, t.msg, t.code)) = [(16, .user 10 0, some 2)] ∧
+      (fileMessages (run Gen.env St.init (evs.map (addIgnoreEv 1 16 [2]))).dyn 1).map (fun t => (t.line, t.msg, t.code))
+        = [(16, .user 10 0, some 29), (16, .notCovered 29 [2], none)] := by
+  refine ⟨[ .setFile 1 { enabled := [], disabled := [], showLinks := false, manyThreshold := -1 },
+      .setIgnored 1 [] false, .setSkipped 1 [],
+      .report { uid := 1, line := 16, column := some 12, msgId := 10, code := some ⟨2, none, true, false⟩, blocker := false,
+                sev := .error, onlyOnce := false, span := [16], offset := 0, endLine := none, endColumn := none, parent := none },
+      .report { uid := 2, line := 16, column := some 12, msgId := 10, code := some ⟨29, none, true, false⟩, blocker := false,
+                sev := .error, onlyOnce := false, span := [16], offset := 0, endLine := none, endColumn := none, parent := none } ],
+    by decide, by decide, by decide⟩
+
 /-! ## from what is stored to what is displayed -/
 
 /-- **output level**.  `ignore_exact` / `disable_code_exact` speak about what the sink stores; `file_messages`
@@ -437,6 +456,20 @@ example : unusedMsg Gen.env [] [2] 3 [] = none := by decide
 example : unusedMsg Gen.env [] [2] 3 [2, 29] = some (.unusedIgnore [29] []) := by decide
 -- the narrower-code hint: `ignore[import]` used only through its sub-code import-not-found (21)
 example : unusedMsg Gen.env [] [21] 3 [20] = some (.unusedIgnore [] [(20, [21])]) := by decide
+
+/-- `generate_ignore_without_code_errors` reports the entry `(line, codes)` exactly when the ignore is bare and —
+    if unused ignores are warned about — it suppressed something (otherwise the unused-ignore error stands alone) -/
+theorem ignore_without_code_iff (skipped : List Int) (used : List CodeName) (warnUnused : Bool) (line : Int)
+    (codes : List CodeName) (hs : line ∉ skipped) :
+    (noCodeMsg skipped used warnUnused line codes).isSome = true ↔ codes = [] ∧ (warnUnused = true → used ≠ []) := by
+  unfold noCodeMsg
+  simp only [hs, if_false]
+  cases codes with
+  | cons c cs => simp
+  | nil =>
+    cases warnUnused <;> cases used <;> simp
+example : noCodeMsg [] [2, 29, 2] true 3 [] = some (.ignoreWithoutCode [2, 29]) := by decide
+example : noCodeMsg [] [] true 3 [] = none := by decide
 
 /-! ## the regenerated error-code table -/
 
